@@ -163,6 +163,12 @@ func (fr *Frame) enterBlock(b *ssa.BasicBlock, inc []inEdge) *State {
 		}
 		pes = append(pes, pe{e.st.pc, idx})
 	}
+	newPhi := map[*ssa.Phi]Term{}
+	defer func() {
+		for phi, t := range newPhi {
+			fr.regs[phi] = t
+		}
+	}()
 	for _, in := range b.Instrs {
 		phi, ok := in.(*ssa.Phi)
 		if !ok {
@@ -181,7 +187,7 @@ func (fr *Frame) enterBlock(b *ssa.BasicBlock, inc []inEdge) *State {
 			t = u.fresh("phi", u.w.sortOf(phi.Type()))
 		}
 		t = u.define(fr.vname(phi), t)
-		fr.regs[phi] = t
+		newPhi[phi] = t // bound after all phis are evaluated (parallel assignment)
 		if phi.Comment != "" {
 			st.env[envName(phi.Comment)] = envEntry{val: t, typ: phi.Type()}
 			if phi.Comment == "rangeindex" {
@@ -651,13 +657,45 @@ func (fr *Frame) execLoop(li *loopInfo, order []*ssa.BasicBlock, loops map[*ssa.
 				u.oblige(fr, "inv-preserved", blockPos(head), fmt.Sprintf("loop %d: inferred %s < bound", li.ord, phiName(phi)), stB.pc, Lt(fr.regs[phi], fr.val(n)), true)
 			}
 		}
-		for _, c := range invs {
-			t, err := fr.evalBool(c.E, stB, fr.entry)
-			if err != nil {
-				u.bindErrors = append(u.bindErrors, fmt.Sprintf("%s loop %d invariant %q: %v", fr.key, li.ord, c.Text, err))
-				continue
+		if len(back) > 1 && len(back) <= 6 {
+			// one obligation per back edge: the merged state (an ite per phi and per heap) is much harder
+			// for the solvers than each path on its own
+			savedRegs := map[*ssa.Phi]Term{}
+			for _, in := range head.Instrs {
+				if phi, ok := in.(*ssa.Phi); ok {
+					savedRegs[phi] = fr.regs[phi]
+				} else {
+					break
+				}
 			}
-			u.oblige(fr, "inv-preserved", blockPos(head), fmt.Sprintf("loop %d: %s", li.ord, c.Text), stB.pc, t, false)
+			for bi, b := range back {
+				for phi, t := range savedPhi {
+					fr.regs[phi] = t
+				}
+				stOne := fr.enterBlock(head, []inEdge{b})
+				for _, c := range invs {
+					t, err := fr.evalBool(c.E, stOne, fr.entry)
+					if err != nil {
+						if bi == 0 {
+							u.bindErrors = append(u.bindErrors, fmt.Sprintf("%s loop %d invariant %q: %v", fr.key, li.ord, c.Text, err))
+						}
+						continue
+					}
+					u.oblige(fr, "inv-preserved", blockPos(head), fmt.Sprintf("loop %d: %s", li.ord, c.Text), stOne.pc, t, false)
+				}
+			}
+			for phi, t := range savedRegs {
+				fr.regs[phi] = t
+			}
+		} else {
+			for _, c := range invs {
+				t, err := fr.evalBool(c.E, stB, fr.entry)
+				if err != nil {
+					u.bindErrors = append(u.bindErrors, fmt.Sprintf("%s loop %d invariant %q: %v", fr.key, li.ord, c.Text, err))
+					continue
+				}
+				u.oblige(fr, "inv-preserved", blockPos(head), fmt.Sprintf("loop %d: %s", li.ord, c.Text), stB.pc, t, false)
+			}
 		}
 		for _, g := range stopGhosts {
 			if e, ok := stB.ghost[g]; ok {
